@@ -35,7 +35,7 @@ def extend(G, H):
         "level": "model_checking",
     }
     G["C04K"] = {
-        "harnesses": [H("c04_source::every_ascii_source_up_to_4_bytes", quick=False, cap=3000)],
+        "harnesses": [H("c04_source::every_ascii_source_up_to_2_bytes", quick=False, cap=2400), H("c04_source::every_ascii_source_up_to_3_bytes", quick=False, cap=2400)],
         "functions": ["hpbf::exec::InplaceInterpreter::<u8>::{create, execute_limited}"],
         "bounds": "every ASCII source text of <= 4 bytes without I/O commands, budget 2, unwind 22",
         "outside": "longer sources; I/O commands (covered by the symx part)",
